@@ -10,11 +10,14 @@ C12 line-protocol driver.
       ifm   = `-` | e<k> (the ETag step k returned) | p<k>.<pathhex> (that ETag's hash, other path)
             | w<pathhex> (well-formed, wrong hash) | r<hex> (raw header that is NOT of the form "a b")
       flags = `-` | [f][one Content-Type letter]  (f = Cache-Control: must-revalidate; see `ctOfChar`)
-  answer: per step  <resp>  for G/H, and  <resp>/<config>/<ids>/<probe loads>/<probe saw>/<loads>  otherwise
+  answer: per step  <resp>  for G/H, and  <resp>/<config>/<ids>/<probe loads>/<probe saw>/<loads>/<autosave file>  otherwise
           (loads = how often any configuration was started)
       resp  = g:<tree|->:<etag path hex> | w | d:<tree> (/adapt) | r | amb | F<status>:<class>
       ids   = for every distinct "@id" text in the config, sorted: <hex>=<resp of GET /id/<text>, etag path only>
   cas <k> <n>                 k concurrent clients × n conditional increments → `cas <k*n>`
+  cli <init tree> <file: tree|!|-> <flags>
+                              `caddy reload` (the real command function) against the instance running <init>, over its
+                              real admin listener; answer <ok|presend|F<status>:<class>>/<config>/<loads caused>
   gg <tree> <pathA> <pathB> [<pathC> [<pathD>]]
                               overlapping GETs after loading <tree>: GET A is served with a ResponseWriter whose
                               first Write performs complete GETs of B, C, D through the same handler before it
@@ -222,6 +225,7 @@ structure Drv where
   etags : List (Option (Bytes × Bytes)) := []     -- per step: (etag path, hash text)
   probeLoads : Nat := 0
   probeSaw : Option Json := none
+  saved : Option Json := none     -- the autosave file: the last accepted non-null document
   out : List String := []
 
 def parseMethod : String → Option HMethod
@@ -310,11 +314,13 @@ def stepDrv (d : Drv) (step : String) : Option Drv :=
       let loaded := s'.loads > d.s.loads
       let pl := if loaded && (probeOf s'.running).isSome then d.probeLoads + 1 else d.probeLoads
       let ps := if loaded && (probeOf s'.running).isSome then probeOf s'.running else d.probeSaw
+      -- unsyncedDecodeAndRun: `if allowPersist && newCfg != nil && persist not disabled` write cfgJSON
+      let sv := if loaded && cfgOf s'.rawCfg != .null then some (cfgOf s'.rawCfg) else d.saved
       let line :=
         if hm == .get || hm == .other then showResp isGet resp
         else showResp isGet resp ++ "/" ++ encTree (cfgOf s'.rawCfg) ++ "/" ++ showIds s' ++ "/" ++
-          toString pl ++ "/" ++ (match ps with | some j => encTree j | none => "-") ++ "/" ++ toString s'.loads
-      some { s := s', etags := d.etags ++ [et], probeLoads := pl, probeSaw := ps, out := line :: d.out }
+          toString pl ++ "/" ++ (match ps with | some j => encTree j | none => "-") ++ "/" ++ toString s'.loads ++ "/" ++ (match sv with | some j => encTree j | none => "-")
+      some { s := s', etags := d.etags ++ [et], probeLoads := pl, probeSaw := ps, saved := sv, out := line :: d.out }
     | _, _, _, _, _ => none
   | _ => none
 
@@ -359,6 +365,23 @@ def handle : List String → String
         | .config => "config" | .id => "id" | .load => "load" | .adapt => "adapt"
         | .redirect => "redirect" | .none => "none")
     | none => "bad-op"
+  | ["cli", init, file, flags] =>
+    -- `caddy reload --config <file>.json [--force] [--adapter …] [--address …]` against the running instance
+    -- (after loading <init>); flags: f = --force, a = --address given explicitly, w / x = --adapter c12wrap / nosuch
+    match parseWholeTree init, parseBody file with
+    | some j, some fb =>
+      if flags != "-" && !(flags.toList.all (fun c => c == 'f' || c == 'a' || c == 'w' || c == 'x')) then "bad-op"
+      else if flags.contains 'w' && flags.contains 'x' then "bad-op" else
+      let s0 := (serve drvEnv ⟨.post, cfgPrefix, .val .null, [], false, .json⟩ initState).1
+      let s1 := (serve drvEnv ⟨.post, cfgPrefix, .val j, [], false, .json⟩ s0).1
+      let ad : CliAdapter := if flags.contains 'w' then .registered else if flags.contains 'x' then .unknown else .none
+      let (s2, res) := cliReload drvEnv fb ad (flags.contains 'f') (flags.contains 'a') s1
+      (match res with
+        | .ok => "ok"
+        | .failedBeforeSend => "presend"
+        | .refused f => "F" ++ toString (statusOf f) ++ ":" ++ showFail f) ++
+      "/" ++ encTree (cfgOf s2.rawCfg) ++ "/" ++ toString (s2.loads - s1.loads)
+    | _, _ => "bad-op"
   | "gg" :: doc :: paths =>
     -- overlapping GETs: the first is being written out while the others are served completely; each GET
     -- answers the value at its own path, whatever overlaps (`get_answer_is_independent_of_other_reads`)
